@@ -165,7 +165,14 @@ pub fn gen_case(t: &mut Tape) -> Vec<u8> {
         return gen::gen_v2_mutant(t).0;
     }
     let mut x = gen::gen_v2_header(t).bytes;
-    if t.coin() {
+    if t.chance(1, 12) && x.len() <= 4096 {
+        // the very same header once or twice more behind it (keep-alive / health-check headers piling up in a slow reader's
+        // buffer)
+        let h = x.clone();
+        for _ in 0..1 + t.below(2) {
+            x.extend_from_slice(&h);
+        }
+    } else if t.coin() {
         x.extend(gen::gen_trailer(t, false).0);
     }
     x
